@@ -3,6 +3,7 @@ package sim
 import (
 	"encoding/base64"
 	"errors"
+	"io"
 	"strings"
 	"time"
 
@@ -13,10 +14,11 @@ import (
 // payload is exact.
 
 type c14Scenario struct {
-	Client    ClientOpts `json:"client"`
-	Server    NegScript  `json:"server"`
-	Seg       int        `json:"segmentation"`
-	LatencyNs int64      `json:"latency_ns"`
+	Client    ClientOpts  `json:"client"`
+	Servers   []NegScript `json:"connections"` // one script per connection of the history (Connect, loss, Resume)
+	TLS       bool        `json:"tls"`
+	Seg       int         `json:"segmentation"`
+	LatencyNs int64       `json:"latency_ns"`
 }
 
 var localAlphabet = []string{"a", "b", "z", "A", "0", "7", ".", "-", "_", "&", "é", "ü", "日", "本", "✓", "+", "=", "%", "!", "~", "$", "*", "(", ")", ";", ",", "#", "𝔘"}
@@ -44,43 +46,83 @@ func init() {
 	})
 }
 
+func c14Mechs(g G, kind string) []string {
+	pool := []string{"PLAIN", "X-OAUTH2", "SCRAM-SHA-1", "ANONYMOUS", "DIGEST-MD5", "X-FOO", "plain", "PLAIN "}
+	nm := g.Range(kind+"-n", 0, 5)
+	out := []string{}
+	for i := 0; i < nm; i++ {
+		out = append(out, pool[g.Weighted(kind, 4, 3, 2, 1, 1, 1, 1, 1)])
+	}
+	return out
+}
+
 func runC14(e *Engine, g G, o RunOpt) RunInfo {
-	sc := &c14Scenario{Client: DefaultClientOpts(), Server: DefaultNeg()}
+	sc := &c14Scenario{Client: DefaultClientOpts()}
 	sc.Client.User = genFrom(g, "user", localAlphabet, 1, 12)
 	sc.Client.Secret = genFrom(g, "secret", secretAlphabet, 1, 20)
 	sc.Client.OAuth = g.Pct("oauth", 35)
-	pool := []string{"PLAIN", "X-OAUTH2", "SCRAM-SHA-1", "ANONYMOUS", "DIGEST-MD5", "X-FOO", "plain", "PLAIN "}
-	nm := g.Range("nmech", 0, 5)
-	sc.Server.Mechs = []string{}
-	for i := 0; i < nm; i++ {
-		sc.Server.Mechs = append(sc.Server.Mechs, pool[g.Weighted("mech", 4, 3, 2, 1, 1, 1, 1, 1)])
-	}
-	if g.Pct("authdev", 45) {
-		sc.Server.AuthReply = 1 + g.N("authreply", 5)
-		if sc.Server.AuthReply == AuthFailure {
-			sc.Server.AuthCond = []string{"not-authorized", "credentials-expired", "temporary-auth-failure", "account-disabled", "aborted"}[g.N("authcond", 5)]
+	sc.TLS = g.Pct("tls", 25)
+	nconn := 1 + g.Weighted("history", 7, 3)
+	for i := 0; i < nconn; i++ {
+		sv := DefaultNeg()
+		sv.Mechs = c14Mechs(g, "mech")
+		if sc.TLS {
+			sv.StartTLS = TLSRequired
+			sv.Cert = CertGood
+			// what is advertised before TLS says nothing about what is on offer afterwards
+			sv.MechsTLS = c14Mechs(g, "mechtls")
 		}
+		if g.Pct("authdev", 45) {
+			sv.AuthReply = 1 + g.N("authreply", 5)
+			if sv.AuthReply == AuthFailure {
+				sv.AuthCond = []string{"not-authorized", "credentials-expired", "temporary-auth-failure", "account-disabled", "aborted"}[g.N("authcond", 5)]
+			}
+		}
+		sv.Prefixed = g.Bool("prefixed")
+		sv.DelayMs = []int{0, 0, 30}[g.N("delay", 3)]
+		sc.Servers = append(sc.Servers, sv)
 	}
-	sc.Server.Prefixed = g.Bool("prefixed")
-	sc.Server.DelayMs = []int{0, 0, 30}[g.N("delay", 3)]
+	if sc.TLS {
+		sc.Client.Insecure = false
+		sc.Client.TLS = TLSCfgRoots
+	}
 	sc.Seg, sc.LatencyNs = netModes(g, e)
 
-	var callErr error
+	var errs []error
 	var srv *Server
 	e.Run(func() {
 		srv = NewServer(e, SimDomain)
-		srv.Scripts = []NegScript{sc.Server}
+		srv.Certs = sharedCerts()
+		srv.Scripts = sc.Servers
 		w := NewCW(e, sc.Client, sharedCerts())
 		w.CatchAll()
 		if err := w.Create(); err != nil {
-			callErr = err
 			e.Logf("setup", "NewClient: %v", err)
 			return
 		}
-		callErr, _ = e.Call("Connect", w.Client.Connect)
+		for i := range sc.Servers {
+			var err error
+			if i == 0 {
+				err, _ = e.Call("Connect", w.Client.Connect)
+			} else {
+				err, _ = e.Call("Resume", w.Client.Resume)
+			}
+			errs = append(errs, err)
+			e.Sleep(200 * time.Millisecond)
+			if i == len(sc.Servers)-1 || len(srv.Conns) <= i {
+				break
+			}
+			// lose the connection before the next attempt
+			c := srv.Conns[i]
+			if cli := c.Pipe.Cli; !cli.IsClosed() && cli.rTerm == nil {
+				cli.CutAt = c.End.TotalWritten
+				cli.CutErr = io.EOF
+			}
+			e.Sleep(time.Duration(sc.Client.ConnectTimeout+3) * time.Second)
+		}
 		e.Sleep(time.Duration(sc.Client.ConnectTimeout+5) * time.Second)
 	})
-	info := RunInfo{Scenario: sc, Nontrivial: srv != nil && len(srv.Conns) == 1 && len(srv.Conns[0].Sent) >= 2}
+	info := RunInfo{Scenario: sc, Nontrivial: srv != nil && len(srv.Conns) >= 1 && len(srv.Conns[0].Sent) >= 2}
 	if e.Stuck != "" {
 		e.Violate("C14", "hang", "%s", e.Stuck)
 	}
@@ -91,13 +133,35 @@ func runC14(e *Engine, g G, o RunOpt) RunInfo {
 		e.Probe("precondition_failed")
 		return info
 	}
-	conn := srv.Conns[0]
+	for i, conn := range srv.Conns {
+		if i >= len(errs) || len(conn.Sent) < 2 {
+			continue
+		}
+		c14Check(e, sc, i, conn, errs[i])
+		if i > 0 {
+			e.Probe("c14.second_connection")
+		}
+	}
+	return info
+}
+
+// c14Check is the oracle for one connection of the history.
+func c14Check(e *Engine, sc *c14Scenario, ci int, conn *SrvConn, callErr error) {
+	script := sc.Servers[ci]
 	mech := "PLAIN"
 	if sc.Client.OAuth {
 		mech = "X-OAUTH2"
 	}
+	// the list that counts is the one advertised on the stream the client authenticates on
+	list := script.Mechs
+	if script.MechsTLS != nil && conn.TLS {
+		list = script.MechsTLS
+	}
+	if sc.TLS && !conn.TLS {
+		return // TLS did not come up: no authentication is expected at all (C04's business)
+	}
 	offered := false
-	for _, m := range sc.Server.Mechs {
+	for _, m := range list {
 		if m == mech {
 			offered = true
 		}
@@ -117,53 +181,52 @@ func runC14(e *Engine, g G, o RunOpt) RunInfo {
 			after++
 		}
 		if !seenAuth && (k == "bind" || k == "resume" || strings.HasPrefix(k, "stanza:")) {
-			e.Violate("C14", "request-without-authentication", "client sent %s without having authenticated", k)
+			e.Violate("C14", "request-without-authentication", "connection #%d: client sent %s without having authenticated", ci, k)
 		}
 	}
 	if !offered {
 		e.Probe("c14.no_common_mechanism")
 		if len(auths) > 0 {
-			e.Violate("C14", "mechanism-not-offered", "server offered %q, client sent <auth mechanism=%q>", sc.Server.Mechs, auths[0].Attr("mechanism"))
+			e.Violate("C14", "mechanism-not-offered", "connection #%d: server offered %q on this stream, client sent <auth mechanism=%q>", ci, list, auths[0].Attr("mechanism"))
 		}
 		if callErr == nil {
-			e.Violate("C14", "connected-without-mechanism", "Connect returned nil although no common mechanism exists")
+			e.Violate("C14", "connected-without-mechanism", "connection #%d: the call returned nil although no common mechanism exists", ci)
 		} else if !isConnErr || !ce.Permanent {
-			e.Violate("C14", "no-mechanism-not-permanent", "no common mechanism must be a permanent error, got %T %v", callErr, callErr)
+			e.Violate("C14", "no-mechanism-not-permanent", "connection #%d: no common mechanism must be a permanent error, got %T %v", ci, callErr, callErr)
 		}
-		return info
+		return
 	}
 	if len(auths) != 1 {
-		e.Violate("C14", "auth-count="+cnt(len(auths)), "expected exactly one <auth/>, server received %d", len(auths))
-		return info
+		e.Violate("C14", "auth-count="+cnt(len(auths)), "connection #%d: expected exactly one <auth/>, server received %d", ci, len(auths))
+		return
 	}
 	a := auths[0]
 	if got := a.Attr("mechanism"); got != mech {
-		e.Violate("C14", "wrong-mechanism", "credential supports %s, server offered %q, client used %q", mech, sc.Server.Mechs, got)
+		e.Violate("C14", "wrong-mechanism", "connection #%d: credential supports %s, server offered %q, client used %q", ci, mech, list, got)
 	}
 	raw, derr := base64.StdEncoding.DecodeString(strings.TrimSpace(a.Text))
 	want := "\x00" + sc.Client.User + "\x00" + sc.Client.Secret
 	if derr != nil {
-		e.Violate("C14", "payload-not-base64", "auth payload %q: %v", a.Text, derr)
+		e.Violate("C14", "payload-not-base64", "connection #%d: auth payload %q: %v", ci, a.Text, derr)
 	} else if string(raw) != want {
-		e.Violate("C14", "payload-mismatch", "auth payload decodes to %q, expected %q", raw, want)
+		e.Violate("C14", "payload-mismatch", "connection #%d: auth payload decodes to %q, expected %q", ci, raw, want)
 	}
-	switch sc.Server.AuthReply {
+	switch script.AuthReply {
 	case AuthSuccess:
 		if callErr != nil {
-			e.Violate("C14", "success-rejected", "server answered <success/>, Connect returned %v", callErr)
+			e.Violate("C14", "success-rejected", "connection #%d: server answered <success/>, the call returned %v", ci, callErr)
 		}
 		e.Probe("c14.success")
 	default:
-		e.Probe("c14.reply." + []string{"success", "failure", "challenge", "stanza", "malformed", "close"}[sc.Server.AuthReply])
+		e.Probe("c14.reply." + []string{"success", "failure", "challenge", "stanza", "malformed", "close"}[script.AuthReply])
 		if callErr == nil {
-			e.Violate("C14", "authenticated-without-success", "server answered %d to <auth/>, Connect returned nil", sc.Server.AuthReply)
+			e.Violate("C14", "authenticated-without-success", "connection #%d: server answered %d to <auth/>, the call returned nil", ci, script.AuthReply)
 		}
 		if after > 0 {
-			e.Violate("C14", "requests-after-failed-auth", "%d bind/resume/stanza requests after an authentication that did not succeed", after)
+			e.Violate("C14", "requests-after-failed-auth", "connection #%d: %d bind/resume/stanza requests after an authentication that did not succeed", ci, after)
 		}
-		if sc.Server.AuthReply == AuthFailure && callErr != nil && (!isConnErr || !ce.Permanent) {
-			e.Violate("C14", "failure-not-permanent", "<failure/> must be a permanent error, got %T %v", callErr, callErr)
+		if script.AuthReply == AuthFailure && callErr != nil && (!isConnErr || !ce.Permanent) {
+			e.Violate("C14", "failure-not-permanent", "connection #%d: <failure/> must be a permanent error, got %T %v", ci, callErr, callErr)
 		}
 	}
-	return info
 }
